@@ -24,7 +24,8 @@ EXPLANATION = (
     'thread created after the old one exits, so a later thread would be taken for the dead worker\'s child; the recorded ident '
     'is read only as the target of foreign_raise (while the child is known alive), as part of the identity report sent to the '
     'parent, and in assertions. And after a forced kill the server shuts the data socket down (sockets.py) - otherwise the '
-    'parent-side terminate(force=True) of a context worker ends by signalling its own process.')
+    'parent-side terminate(force=True) of a context worker ends by signalling its own process.'
+    ' R3 also: every store that lowers the dead flag (self._dead = False) is dominated by self._child.start() - the belief the base constructor states in a comment - so a start-up step that raises cannot leave an object that claims to be alive without a child (shared with C17.R3). Process.kill() counts as a forced kill like Process.terminate().')
 TECHNIQUE = 'blocking-call discipline, dominance and handler coverage on the CFG (static analysis)'
 
 DEAD_GUARDS = ('not self.is_alive()', 'not self._started or self._dead', 'self._dead', 'not self._started')
